@@ -1108,6 +1108,20 @@ func genC04(r *R, n int, tier string, out *Out) {
 				for !utf8.RuneStart(s[pos]) && pos < len(s)-1 {
 					pos++
 				}
+				if k < 2 {
+					// the first two of a document: directly behind the backslash of an escape, in a key or in a value (a parser that
+					// copies "the escaped character" without looking at it never decodes that byte)
+					var bs []int
+					for j := 1; j+1 < len(s); j++ {
+						if s[j] == '\\' {
+							bs = append(bs, j+1)
+							j++
+						}
+					}
+					if len(bs) > 0 {
+						pos = pickOf(r, bs)
+					}
+				}
 				p := s[:pos] + bad + s[pos:]
 				f := &failer{pred: true}
 				po := doParse(isObj, p)
